@@ -3,8 +3,8 @@ open DendroModel DendroModel.C16
 
 /-! protocol
 `hist <tree> | <op> | <op> …`   ops: `C <obj>` (clone object) or
-                                `S <obj> <alphabet> <gaps_as_missing 0/1> <weights: - or w,w,…> <taxonbit> =<symbols> …`
-   → one result per op joined by ` | `: `ok <score> <by,by,…>`, `KeyError`, `ValueError`, `c`
+                                `S <obj> <alphabet> <gaps_as_missing 0/1> <weights: - (None), . (empty list) or w,w,…> <taxonbit> =<symbols> …`
+   → one result per op joined by ` | `: `ok <score> <by,by,…>`, `KeyError`, `ValueError`, `IndexError`, `c`
 `sets <alphabet> <0/1> =<symbols>`  → the state-set masks of one row
 `reroot <steps: - or LL,LR,…> <tree>` → rendered tree -/
 
@@ -32,6 +32,7 @@ def parseRows (alph : String) (g : Bool) : List String → Option Matrix
 
 def parseWeights (s : String) : Option (Option (List Nat)) :=
   if s == "-" then some none
+  else if s == "." then some (some [])
   else ((s.splitOn ",").mapM String.toNat?).map some
 
 def parseFlag (s : String) : Option Bool :=
@@ -44,12 +45,10 @@ def parseOp : List String → Option Op
     | some j, some g, some w =>
       match parseRows alph g rows with
       | some m =>
-        -- the statement's domain: a non-empty rectangular matrix and one weight per character
+        -- a non-empty rectangular matrix; the weight list may have any length (too short => IndexError when needed)
         if m.isEmpty then none
         else if !(m.all (fun r => r.2.length == nchar m)) then none
-        else match w with
-          | some wl => if wl.length == nchar m then some (Op.score j m w) else none
-          | none => some (Op.score j m none)
+        else some (Op.score j m w)
       | none => none
     | _, _, _ => none
   | _ => none
